@@ -60,6 +60,10 @@ pub struct Flags {
     pub two_victims: bool,
     /// select the victims with a regex (both) instead of a name
     pub by_regex: bool,
+    /// with `outgoing`: the victim dials the peer and then never reads, while the peer's
+    /// accepted stream writes continuously (so the parked writer sits on the ACCEPTING side)
+    #[serde(default)]
+    pub outgoing_flood: bool,
 }
 
 #[derive(Clone, Debug, Serialize, Deserialize)]
@@ -90,6 +94,8 @@ struct ConnRec {
     reader_end: Option<(String, u64)>,
     writer_blocked: bool,
     writer_end: Option<(String, u64)>,
+    /// record kept by the peer for a stream it ACCEPTED from a victim (no SYN logic applies)
+    accept_side: bool,
 }
 
 #[derive(Default)]
@@ -218,6 +224,10 @@ async fn victim(sh: Rc<Shared>, name: String, inc: u64, sc: Scenario) -> turmoil
         tokio::task::spawn_local(async move {
             let _g = Guard::new(&sh2, &n2);
             if let Ok(mut s) = TcpStream::connect(("p", P_TCP)).await {
+                if f.outgoing_flood {
+                    // hold the stream without ever reading: the peer's writer fills the window
+                    std::future::pending::<()>().await;
+                }
                 let mut b = [0u8; 4];
                 loop {
                     if s.write_all(&[1, 2, 3, 4]).await.is_err() {
@@ -282,9 +292,38 @@ async fn victim(sh: Rc<Shared>, name: String, inc: u64, sc: Scenario) -> turmoil
 async fn peer(sh: Rc<Shared>, sc: Scenario, nvict: usize) -> turmoil::Result {
     let any = if sc.v6 { "::" } else { "0.0.0.0" };
     let lis = TcpListener::bind((any, P_TCP)).await?;
+    let (flood, sh_acc) = (sc.flags.outgoing && sc.flags.outgoing_flood, sh.clone());
     tokio::task::spawn_local(async move {
+        let mut n_acc = 0usize;
         loop {
-            let Ok((mut s, _)) = lis.accept().await else { break };
+            let Ok((mut s, from)) = lis.accept().await else { break };
+            n_acc += 1;
+            if flood {
+                let id = 1000 + n_acc;
+                let v: usize = turmoil::reverse_lookup(from.ip()).and_then(|n| n[1..].parse().ok()).unwrap_or(0);
+                let at = sh_acc.step.get();
+                sh_acc.conns.borrow_mut().insert(id, ConnRec { victim: v, send_step: at, connected_step: Some(at), accept_side: true, ..Default::default() });
+                let sh3 = sh_acc.clone();
+                tokio::task::spawn_local(async move {
+                    loop {
+                        sh3.conns.borrow_mut().get_mut(&id).unwrap().writer_blocked = true;
+                        let res = s.write_all(&[0x5a; 16]).await;
+                        let at = sh3.step.get();
+                        let mut g = sh3.conns.borrow_mut();
+                        let c = g.get_mut(&id).unwrap();
+                        c.writer_blocked = false;
+                        if let Err(e) = res {
+                            c.writer_end = Some((format!("{:?}", e.kind()), at));
+                            break;
+                        }
+                        drop(g);
+                        tokio::time::sleep(Duration::from_millis(1)).await;
+                    }
+                    std::future::pending::<()>().await;
+                    drop(s);
+                });
+                continue;
+            }
             tokio::task::spawn_local(async move {
                 let mut b = [0u8; 4];
                 loop {
@@ -702,11 +741,32 @@ pub fn run(sc: &Scenario) -> Outcome {
             return out;
         }
     }
-    for ((v, _seq), k) in sent.iter() {
-        if in_down(*v, k + ceil_l) {
+    let got_dgram: std::collections::BTreeSet<(usize, u32)> = sh.udp_recv.borrow().iter().map(|(n, _, s, _)| (n[1..].parse::<usize>().unwrap(), *s)).collect();
+    let mut must_dgrams = 0u64;
+    for ((v, seq), k) in sent.iter() {
+        let j = k + ceil_l;
+        if in_down(*v, j) {
             dgram_down += 1;
+            continue;
+        }
+        // must be received: the incarnation alive at the send has been up for >= 3 steps (socket
+        // bound, group joined) and is not crashed before the datagram arrives (+2 steps of slack)
+        let Some(n) = r.inc_start[*v].iter().rposition(|st| *st < *k) else { continue };
+        let st = r.inc_start[*v][n];
+        let next_crash = r.downs[*v].iter().map(|d| d.0).find(|c| *c >= st).unwrap_or(u64::MAX);
+        if *k >= st + 4 && j + 2 <= next_crash && j + 2 <= r.total {
+            must_dgrams += 1;
+            if !got_dgram.contains(&(*v, *seq)) {
+                let kind = if *seq >= 1_000_000 { "multicast" } else { "unicast" };
+                out.fail(
+                    format!("{kind}-datagram-to-running-host-lost"),
+                    format!("v{v}: {kind} datagram {seq} sent at step {k} (arrives step {j}) was never received although the host's incarnation {n} ran from boundary {st} and was not crashed before step {next_crash}; downs of all victims {:?}", r.downs),
+                );
+                return out;
+            }
         }
     }
+    out.count("datagrams that had to be received", must_dgrams);
     // connections
     let mut unblocked_checked = 0u64;
     for (i, c) in sh.conns.borrow().iter() {
@@ -714,7 +774,7 @@ pub fn run(sc: &Scenario) -> Outcome {
         let j = c.send_step + ceil_l; // SYN delivered at the victim's turn in step j
         let crashes_after_send: Vec<(u64, Option<u64>)> = r.downs[v].iter().filter(|(cr, _)| *cr >= c.send_step).cloned().collect();
         // SYN matured while down: must never be accepted by the new incarnation
-        if in_down(v, j) {
+        if !c.accept_side && in_down(v, j) {
             if c.connected_step.is_some() {
                 out.fail("connect-that-arrived-during-downtime-was-accepted", format!("conn {i} to v{v}: SYN sent step {}, arrives step {j}, downs {:?}: connected at {:?}", c.send_step, r.downs[v], c.connected_step));
                 return out;
@@ -729,7 +789,7 @@ pub fn run(sc: &Scenario) -> Outcome {
             continue;
         }
         // SYN delivered before a crash and not accepted by then: must be refused promptly
-        if let Some((cr, _)) = crashes_after_send.first() {
+        if let Some((cr, _)) = crashes_after_send.first().filter(|_| !c.accept_side) {
             // an accepting victim may have accepted it in a step <= cr; the peer then notices at cr + 1 at the latest
             let accepted_before_crash = sc.flags.accept && c.connected_step.map(|s| s <= *cr + 1).unwrap_or(false);
             if j <= *cr && !accepted_before_crash {
@@ -787,7 +847,7 @@ pub fn run(sc: &Scenario) -> Outcome {
                     if c.writer_end.is_none() && c.writer_blocked && r.writers_blocked_at_crash.iter().any(|(ci, b)| ci == i && b == cr) {
                         // did the victim hold unread data of this stream when it crashed? then its
                         // drop sends a RST; otherwise only a FIN (which cannot unblock a writer)
-                        let victim_never_reads = matches!(sc.flags.stream_mode, StreamMode::Idle | StreamMode::Writer);
+                        let victim_never_reads = c.accept_side || matches!(sc.flags.stream_mode, StreamMode::Idle | StreamMode::Writer);
                         let delivered_before_crash = cs + ceil_l <= *cr;
                         if victim_never_reads && delivered_before_crash {
                             out.fail(
@@ -809,7 +869,7 @@ pub fn run(sc: &Scenario) -> Outcome {
             }
         }
         // connect aimed at a running, accepting incarnation far from any restart: must succeed
-        if sc.flags.accept && crashes_after_send.is_empty() && !near_restart(v, j) && !near_restart(v, j + 1) {
+        if !c.accept_side && sc.flags.accept && crashes_after_send.is_empty() && !near_restart(v, j) && !near_restart(v, j + 1) {
             let started = r.inc_start[v].iter().rposition(|st| *st < j).map(|n| r.inc_start[v][n]).unwrap_or(0);
             if j >= started + 3 && j + 3 <= r.total && c.connected_step.is_none() {
                 out.fail("connect-to-restarted-host-failed", format!("conn {i} to v{v}: SYN arrives step {j}, incarnation started at boundary {started}: {:?}", c.connect_err));
@@ -906,6 +966,7 @@ fn flags_strategy() -> BoxedStrategy<Flags> {
             outgoing,
             two_victims,
             by_regex,
+            outgoing_flood: outgoing && (bg_tasks ^ fs),
         })
         .boxed()
 }
@@ -950,7 +1011,7 @@ pub fn strategy() -> BoxedStrategy<Scenario> {
 
 /// Crash after every step of a set of small workloads, several downtimes.
 fn exhaustive_space(tier: Tier) -> Vec<Scenario> {
-    let base = |accept: bool, mode: StreamMode, bg, udp, mc, fs, outgoing, two, rx| Flags { accept, stream_mode: mode, bg_tasks: bg, udp, multicast: mc, fs, outgoing, two_victims: two, by_regex: rx };
+    let base = |accept: bool, mode: StreamMode, bg, udp, mc, fs, outgoing, two, rx| Flags { accept, stream_mode: mode, bg_tasks: bg, udp, multicast: mc, fs, outgoing, two_victims: two, by_regex: rx, outgoing_flood: false };
     let mut workloads: Vec<(Flags, Vec<(u32, PeerKind, usize)>, usize)> = vec![
         (base(true, StreamMode::Echo, false, false, false, false, false, false, false), vec![(2, PeerKind::Both, 0)], 64),
         (base(true, StreamMode::Sink, true, true, false, false, false, false, false), vec![(3, PeerKind::Writer, 0), (9, PeerKind::Reader, 0)], 64),
@@ -964,6 +1025,10 @@ fn exhaustive_space(tier: Tier) -> Vec<Scenario> {
         (base(true, StreamMode::Idle, false, true, false, false, true, false, false), vec![(2, PeerKind::Both, 0), (10, PeerKind::Writer, 0)], 1),
         (base(true, StreamMode::Writer, false, false, false, false, false, false, false), vec![(2, PeerKind::Idle, 0), (4, PeerKind::Reader, 0)], 3),
         (base(true, StreamMode::Echo, false, false, false, true, true, false, false), vec![], 64),
+        // the victim dials out and never reads; the peer's ACCEPTED stream floods it (parked writer on the accepting side)
+        (Flags { outgoing_flood: true, ..base(true, StreamMode::Echo, false, false, false, false, true, false, false) }, vec![], 2),
+        // two multicast members, only one of them is crashed: the other must keep receiving the group's traffic
+        (base(true, StreamMode::Echo, false, true, true, false, false, true, false), vec![(3, PeerKind::Both, 1)], 64),
     ];
     if tier == Tier::Thorough {
         let extra: Vec<_> = workloads
@@ -1022,7 +1087,7 @@ fn check(tier: Tier, seed: u64) -> i32 {
     let desc = format!(
         "{} scenarios: for each of {} workloads (listening only / never accepting with queued SYNs / echo, sink, idle (unread data) and writer streams / background tasks / UDP + multicast / fs activity / outgoing connection / two victims by regex) x latencies, a crash injected after EVERY step 1..28 followed by a bounce after each listed downtime, plus bounce-without-crash at every third step{}",
         space.len(),
-        tier.pick(12, 24),
+        tier.pick(14, 28),
         if tier == Tier::Thorough { " and a second crash/bounce cycle" } else { "" }
     );
     ctx.exhaustive("crash-at-every-step", &desc, Box::new(space.into_iter()), &run);
